@@ -407,9 +407,16 @@ class VirtualOperator(abc.ABC):
 
     def __init__(self, *args, **kwargs):
         # list positionals
-        positionals = list(args) + [
-            kwargs.pop(key) for key in set(kwargs) & set(self.POSITIONALS)
-        ]
+        positionals = list(args)
+        for key in self.POSITIONALS[len(args) :]:
+            if key not in kwargs:
+                break
+            positionals.append(kwargs.pop(key))
+        misplaced = set(kwargs) & set(self.POSITIONALS)
+        if misplaced:
+            raise ValueError(
+                f"Missing or duplicated positional argument(s): {misplaced}"
+            )
         keywords = {key: kwargs.pop(key) for key in set(kwargs) & set(self.KEYWORDS)}
         options = kwargs
         # check options
